@@ -11,7 +11,8 @@ from . import C02 as c02
 MODULE = 'KdVerif.Props.C03'
 NAMESPACE = 'KdVerif.C03'
 TRUSTED = ['Model/ContainerV3 + Model/Construct + Model/Reader as models of parse_v3 / construct / BytesIO, tied by sections v3, '
-           'v3-malformed, v3-seq, v3-api (events, logs, both tables, every metadata attribute, outcome kind; read counters are compared in C06)',
+           'v3-malformed, v3-seq, v3-api (events, logs, both tables, every metadata attribute, outcome kind; read counters are compared in C06); '
+           'dumps whose tags lie across the block edges of the scanner (v3-blocks, sizes from tools/kdv/readprobe.py) are judged on the code alone',
            'Model/EndToEnd (version-3 branch of dumpOf: header + thread-map chunk at the first next, events of all chunks, log records '
            'dropped, exception of the blocks behind the last chunk after every line) + the trace-layer and line-builder models it '
            'composes, tied by section end-to-end (lines and final exception of formatted_traces on version-3 dumps, whole and cut)',
